@@ -15,13 +15,13 @@ use vcore::geo_gen::{point, Pt};
 pub const TOL_M: f64 = 25.0;
 const KT: f64 = 1852.0 / 3600.0;
 const T0: f64 = 1_700_000_000.0;
-pub const GAPS: [f64; 16] = [9.5, 9.99, 10.01, 10.5, 12.0, 20.0, 30.0, 60.0, 170.0, 179.9, 180.1, 190.0, 470.0, 600.0, 2000.0, 7200.0];
+pub const GAPS: [f64; 20] = [9.5, 9.99, 10.01, 10.5, 12.0, 20.0, 30.0, 60.0, 170.0, 179.9, 180.1, 190.0, 470.0, 600.0, 2000.0, 7200.0, 1000.0, 1700.0, 1790.0, 1860.0];
 
 #[derive(Clone, Debug)]
 pub struct Seg {
     pub n: u8,
     pub period: f64,
-    /// index into GAPS, or >= 16: no gap (one period)
+    /// index into GAPS, or >= GAPS.len(): no gap (one period)
     pub gap: u8,
 }
 
@@ -29,7 +29,8 @@ pub struct Seg {
 pub struct Plan {
     pub icao: u32,
     pub df18: bool,
-    /// 0 airborne only, 1 landing, 2 take-off, 3 alias (airborne, long gap, surface one zone away)
+    /// 0 airborne only, 1 landing, 2 take-off, 3 alias (airborne, long gap, surface one zone away),
+    /// 4 airborne alias (airborne, gap just long enough to fly k latitude / m longitude zones away, airborne again)
     pub kind: u8,
     pub lat: f64,
     pub lon: f64,
@@ -84,10 +85,10 @@ fn surface_dlon(lat: f64, odd: bool) -> f64 {
 
 /// All reports of one aircraft, before drops/duplicates/swaps.
 fn fly(p: &Plan, ac: usize, reference: Option<(f64, f64)>) -> Vec<Report> {
-    let kind = if reference.is_none() { 0 } else { p.kind };
+    let kind = if reference.is_none() && p.kind != 4 { 0 } else { p.kind };
     let v = p.speed_kt.clamp(0.0, 700.0) * KT;
     // schedule: (time offset, surface?) per report
-    let mut sched: Vec<(f64, bool, f64)> = vec![];
+    let mut sched: Vec<(f64, bool, f64, bool)> = vec![];
     let mut t = 0.0;
     let mut taxi_t = 0.0;
     // at least one segment on each side of the switch when there are two or more segments
@@ -99,7 +100,7 @@ fn fly(p: &Plan, ac: usize, reference: Option<(f64, f64)>) -> Vec<Report> {
             _ => false,
         };
         for _ in 0..s.n.max(1) {
-            sched.push((t, surface, taxi_t));
+            sched.push((t, surface, taxi_t, si >= split));
             t += s.period;
             if surface {
                 taxi_t += s.period;
@@ -112,7 +113,26 @@ fn fly(p: &Plan, ac: usize, reference: Option<(f64, f64)>) -> Vec<Report> {
     let site = reference.map(|(rl, ro)| destination(rl, ro, p.site_bearing, p.site_nm.clamp(0.0, 36.0) * NM));
     let taxi_v = 8.0; // m/s while reporting on the ground; stationary during gaps
     // times of the switch
-    let t_switch = sched.iter().find(|x| x.1 == matches!(kind, 1 | 3)).map(|x| x.0).unwrap_or(f64::INFINITY);
+    let t_switch = if kind == 4 { sched.iter().find(|x| x.3).map(|x| x.0).unwrap_or(f64::INFINITY) } else { sched.iter().find(|x| x.1 == matches!(kind, 1 | 3)).map(|x| x.0).unwrap_or(f64::INFINITY) };
+    // airborne alias: where the aircraft is at its last report before the gap, and where it reappears
+    let air_alias = if kind == 4 && t_switch.is_finite() {
+        let t_last1 = sched.iter().filter(|x| !x.3).map(|x| x.0).fold(0.0, f64::max);
+        let last1 = destination(p.lat.clamp(-84.0, 84.0), p.lon, p.bearing, v * t_last1);
+        let odd = p.ops.get(1).map(|b| b & 1 == 1).unwrap_or(false);
+        let dlat = if odd { 360.0 / 59.0 } else { 6.0 };
+        let (k, m) = if p.alias_k == 0 && p.alias_m == 0 { (1, 0) } else { (p.alias_k, p.alias_m) };
+        let n = nl(last1.0);
+        let ni = if odd { n.saturating_sub(1) } else { n }.max(1);
+        let dlon = 360.0 / ni as f64;
+        // jitter up to +-40 km: inside the 50 km plausibility gate around the alias
+        let qlat = (last1.0 + k as f64 * dlat + p.jitter_m.0 * 100.0 / 111_195.0).clamp(-86.0, 86.0);
+        let qlon = wrap180(last1.1 + m as f64 * dlon + p.jitter_m.1 * 100.0 / (111_195.0 * last1.0.to_radians().cos().max(0.1)));
+        let need = (haversine_m(last1.0, last1.1, qlat, qlon) + 2_000.0) / (690.0 * KT);
+        let shift = (need - (t_switch - t_last1)).max(0.0);
+        Some(((qlat, qlon), shift))
+    } else {
+        None
+    };
     // alias: the airborne part is flown around P = site - (k zones, m zones) + jitter
     let alias_p = site.map(|(sl, so)| {
         // surface zones as seen by an even (alias_k even or zero... see alias_odd) frame: 1.5 deg x 90/NL deg,
@@ -140,8 +160,12 @@ fn fly(p: &Plan, ac: usize, reference: Option<(f64, f64)>) -> Vec<Report> {
             }
         }
     }
-    for (i, (t, surface, taxi)) in sched.iter().enumerate() {
+    for (i, (t, surface, taxi, phase2)) in sched.iter().enumerate() {
         let (lat, lon) = match kind {
+            4 => match (air_alias, *phase2) {
+                (Some((q, _)), true) => destination(q.0, q.1, p.bearing, v * (t - t_switch)),
+                _ => destination(p.lat.clamp(-84.0, 84.0), p.lon, p.bearing, v * t),
+            },
             0 => {
                 if p.rhumb {
                     rhumb_dest(p.lat, p.lon, p.bearing, v * t)
@@ -181,7 +205,10 @@ fn fly(p: &Plan, ac: usize, reference: Option<(f64, f64)>) -> Vec<Report> {
         if i > 0 && op & 0x20 == 0 {
             odd = !odd;
         }
-        let ts = T0 + ac as f64 * 0.013 + t + if *surface && kind == 3 { alias_shift } else { 0.0 };
+        let ts = T0 + ac as f64 * 0.013 + t + if *surface && kind == 3 { alias_shift } else { 0.0 } + match (air_alias, *phase2) {
+            (Some((_, shift)), true) => shift,
+            _ => 0.0,
+        };
         out.push(Report { ac, icao: p.icao, ts, arrival: ts, lat, lon, surface: *surface, odd, df18: p.df18 });
     }
     out
@@ -363,7 +390,7 @@ pub fn check_hist(ctx: &Ctx, st: &Stats, h: &Hist) -> Check {
 // ------------------------------------------------------------- strategies
 
 fn seg() -> impl Strategy<Value = Seg> {
-    (prop_oneof![3 => 1u8..4, 3 => 4u8..12, 1 => 12u8..30], 0.4f64..0.6, prop_oneof![3 => 0u8..16, 2 => Just(99u8)]).prop_map(|(n, period, gap)| Seg { n, period, gap })
+    (prop_oneof![3 => 1u8..4, 3 => 4u8..12, 1 => 12u8..30], 0.4f64..0.6, prop_oneof![3 => 0u8..20, 2 => Just(99u8)]).prop_map(|(n, period, gap)| Seg { n, period, gap })
 }
 
 fn plan(kind: impl Strategy<Value = u8>) -> impl Strategy<Value = Plan> {
@@ -381,13 +408,39 @@ fn plan(kind: impl Strategy<Value = u8>) -> impl Strategy<Value = Plan> {
         })
 }
 
+/// Addresses of one history: independent, or one family sharing every bit but a few (low byte, middle byte, high
+/// bits) or made of the same three bytes in another order, so that a cache keyed by part of the address mixes them up.
+fn assign_addresses(plans: &mut [Plan]) {
+    let base = plans[0].icao & 0xffffff;
+    let mode = plans[0].ops.get(2).copied().unwrap_or(0) % 8;
+    for (i, p) in plans.iter_mut().enumerate() {
+        let i = i as u32;
+        p.icao = match mode {
+            0 | 1 => (p.icao & 0xfffff0) | i,
+            2 => base ^ i,
+            3 => base ^ (i << 8),
+            4 => base ^ (i << 16),
+            5 => base ^ (i << 22),
+            6 => {
+                let b = base.to_be_bytes();
+                let (x, y, z) = (b[1] as u32, b[2] as u32, b[3] as u32);
+                if x == y || y == z || x == z {
+                    base ^ (i << 12)
+                } else {
+                    [x << 16 | y << 8 | z, y << 16 | z << 8 | x, z << 16 | x << 8 | y, x << 16 | z << 8 | y][i as usize & 3]
+                }
+            }
+            _ => base ^ (i * 0x010101),
+        } & 0xffffff;
+    }
+}
+
 fn hist(surface: bool) -> BoxedStrategy<Hist> {
     if surface {
-        (point(), proptest::collection::vec(plan(prop_oneof![2 => Just(0u8), 3 => Just(1u8), 2 => Just(2u8), 4 => Just(3u8)]), 1..=4))
+        (point(), proptest::collection::vec(plan(prop_oneof![2 => Just(0u8), 3 => Just(1u8), 2 => Just(2u8), 4 => Just(3u8), 1 => Just(4u8)]), 1..=4))
             .prop_map(|(r, mut plans)| {
-                // distinct addresses
-                for (i, p) in plans.iter_mut().enumerate() {
-                    p.icao = (p.icao & 0xfffff0) | i as u32;
+                assign_addresses(&mut plans);
+                for p in plans.iter_mut() {
                     if p.kind == 0 {
                         // keep airborne-only traffic of a surface scenario away from the poles too
                         p.lat = p.lat.clamp(-85.0, 85.0);
@@ -397,11 +450,9 @@ fn hist(surface: bool) -> BoxedStrategy<Hist> {
             })
             .boxed()
     } else {
-        (proptest::option::of(point()), proptest::collection::vec(plan(Just(0u8)), 1..=4))
+        (proptest::option::of(point()), proptest::collection::vec(plan(prop_oneof![4 => Just(0u8), 1 => Just(4u8)]), 1..=4))
             .prop_map(|(r, mut plans)| {
-                for (i, p) in plans.iter_mut().enumerate() {
-                    p.icao = (p.icao & 0xfffff0) | i as u32;
-                }
+                assign_addresses(&mut plans);
                 Hist { reference: r.map(|r| (r.lat, r.lon)), plans }
             })
             .boxed()
@@ -409,7 +460,7 @@ fn hist(surface: bool) -> BoxedStrategy<Hist> {
 }
 
 pub fn run(ctx: &Ctx) {
-    ctx.set_rule("histories: 1-4 aircraft, each a plan (start from the C04 strata incl. flights along the 87th parallel, bearing, speed in {0,140,450,700, uniform 0-700} kt, 1-6 segments of 1-29 reports every 0.4-0.6 s separated by gaps from {9.5, 9.99, 10.01, 10.5, 12, 20, 30, 60, 170, 179.9, 180.1, 190, 470, 600, 2000, 7200 s}, mostly alternating parity, loss levels 0/20/60/90 %, duplicate receptions +<=0.3 s, neighbour swaps < 1.5 s apart in arrival order or in timestamps, DF17 or DF18 carriers); surface scenarios add landings, take-offs and the adversarial 'last airborne fix exactly k surface zones away, long gap, then surface' family, with a receiver reference within 36 NM of every surface site and |lat| <= 80. Frames from the independent encoder through Message::try_from and decode_positions. Oracle: every attached position within 25 m of the encoded one; per-aircraft outputs bit-identical with and without the other aircraft. Non-trivial = history with >= 1 positioned report and (a gap > 9 s or >= 2 aircraft); distinct by hash of the report list.");
+    ctx.set_rule("histories: 1-4 aircraft, each a plan (start from the C04 strata incl. flights along the 87th parallel, bearing, speed in {0,140,450,700, uniform 0-700} kt, 1-6 segments of 1-29 reports every 0.4-0.6 s separated by gaps from {9.5, 9.99, 10.01, 10.5, 12, 20, 30, 60, 170, 179.9, 180.1, 190, 470, 600, 1000, 1700, 1790, 1860, 2000, 7200 s}, mostly alternating parity, loss levels 0/20/60/90 %, duplicate receptions +<=0.3 s, neighbours delivered in swapped order across any gap (truthful timestamps) or with exchanged timestamps when < 1.5 s apart, DF17 or DF18 carriers, addresses independent or from one family differing in a few bits / byte order); the airborne alias family 'gap just long enough to fly k latitude / m longitude zones (+-40 km) at <= 690 kt, then airborne again'; surface scenarios add landings, take-offs and the adversarial 'last airborne fix exactly k surface zones away, long gap, then surface' family, with a receiver reference within 36 NM of every surface site and |lat| <= 80. Frames from the independent encoder through Message::try_from and decode_positions. Oracle: every attached position within 25 m of the encoded one; per-aircraft outputs bit-identical with and without the other aircraft. Non-trivial = history with >= 1 positioned report and (a gap > 9 s or >= 2 aircraft); distinct by hash of the report list.");
     ctx.assume("speeds <= 700 kt along great circles (rhumb lines along the 87th parallel); receiver reference fixed (update_reference = None)");
     ctx.assume("surface aircraft are stationary during gaps, so the 40 NM premise of the property stays true");
     let st = Stats { reports: AtomicU64::new(0), positioned: AtomicU64::new(0), surface_positioned: AtomicU64::new(0) };
@@ -419,12 +470,15 @@ pub fn run(ctx: &Ctx) {
     (0..shards).into_par_iter().for_each(|s| {
         run_prop(ctx, &format!("airborne-{s}"), n_air / shards, hist(false), |h| {
             ctx.class(&format!("airborne scenario, {} aircraft", h.plans.len()));
+            for p in &h.plans {
+                ctx.class(["plan: airborne only", "plan: landing", "plan: take-off", "plan: alias", "plan: airborne alias"][(p.kind as usize).min(4)]);
+            }
             check_hist(ctx, &st, h)
         });
         run_prop(ctx, &format!("surface-{s}"), n_sfc / shards, hist(true), |h| {
             ctx.class(&format!("surface scenario, {} aircraft", h.plans.len()));
             for p in &h.plans {
-                ctx.class(["plan: airborne only", "plan: landing", "plan: take-off", "plan: alias"][p.kind as usize & 3]);
+                ctx.class(["plan: airborne only", "plan: landing", "plan: take-off", "plan: alias", "plan: airborne alias"][(p.kind as usize).min(4)]);
             }
             check_hist(ctx, &st, h)
         });
